@@ -7,10 +7,6 @@ namespace FaxVerif.C11
 section PartA
 variable (W : Char → Bool)
 
-/-- every character of `l` is of kind `k` -/
-def AllW (k : Bool) (l : Str) : Prop := ∀ c ∈ l, W c = k
-/-- `l` is empty or starts with a character of kind `k` -/
-def HeadIs (k : Bool) (l : Str) : Prop := ∀ c, l.head? = some c → W c = k
 
 /-! ### tokenise -/
 
@@ -129,5 +125,1267 @@ theorem word_split_cons (c : Char) (cs : Str) (hc : W c = true) :
     obtain ⟨rfl, rfl⟩ := h
     exact ⟨w, r, by simp, hw, hr⟩
 
+
+/-! ### the regex scan -/
+
+theorem stripPrefix_eq_some (s r a : Str) : stripPrefix s r = some a ↔ r = s ++ a := by
+  induction s generalizing r with
+  | nil => simp [stripPrefix, eq_comm]
+  | cons x s ih =>
+    cases r with
+    | nil => simp [stripPrefix]
+    | cons y r =>
+      simp only [stripPrefix]
+      by_cases h : x = y
+      · subst h; simp [ih]
+      · simp [h]; intro h'; exact absurd h'.symm h
+
+/-- all alternatives are non-empty words -/
+def WordAlts (alts : List Binding) : Prop := ∀ a ∈ alts, a.1 ≠ [] ∧ AllW W true a.1
+
+theorem matchesAt_nonword_head (prev : Option Char) (src : Str) (c : Char) (cs : Str)
+    (hc : W c = false) (hs : AllW W true src) : matchesAt W prev src (c :: cs) = false := by
+  cases src with
+  | nil => simp [matchesAt]
+  | cons a s =>
+    unfold matchesAt
+    have ha : W a = true := hs a (by simp)
+    have hne : a ≠ c := by intro h; rw [h, hc] at ha; cases ha
+    simp [stripPrefix, hne]
+
+theorem matchesAt_inword (p : Char) (src : Str) (c : Char) (cs : Str)
+    (hp : W p = true) (hc : W c = true) : matchesAt W (some p) src (c :: cs) = false := by
+  unfold matchesAt
+  split
+  · simp [boundary, isW, hp, hc]
+  · rfl
+
+theorem getLast?_mem {α} (l : List α) (a : α) (h : l.getLast? = some a) : a ∈ l := by
+  exact List.mem_of_getLast? h
+
+theorem matchesAt_word (prev : Option Char) (src w r : Str) (hp : isW W prev = false)
+    (hw : w ≠ []) (hwk : AllW W true w) (hr : HeadIs W false r) (hs : src ≠ [])
+    (hsk : AllW W true src) : matchesAt W prev src (w ++ r) = true ↔ src = w := by
+  constructor
+  · intro h
+    unfold matchesAt at h
+    split at h
+    · next lastc after hl hst =>
+      rw [stripPrefix_eq_some] at hst
+      simp only [Bool.and_eq_true] at h
+      obtain ⟨_, h2⟩ := h
+      have hlw : W lastc = true := hsk lastc (List.mem_of_getLast? hl)
+      have hafter : HeadIs W false after := by
+        intro c hc
+        simp [boundary, isW, hlw, hc] at h2
+        exact h2
+      rcases List.append_eq_append_iff.1 hst with ⟨x, hx1, hx2⟩ | ⟨x, hx1, hx2⟩
+      · -- src = w ++ x, r = x ++ after
+        cases x with
+        | nil => simpa using hx1
+        | cons y x =>
+          have h1 : W y = false := hr y (by simp [hx2])
+          have h2 : W y = true := hsk y (by simp [hx1])
+          rw [h1] at h2; cases h2
+      · -- w = src ++ x, after = x ++ r
+        cases x with
+        | nil => simpa using hx1.symm
+        | cons y x =>
+          have h1 : W y = false := hafter y (by simp [hx2])
+          have h2 : W y = true := hwk y (by simp [hx1])
+          rw [h1] at h2; cases h2
+    · cases h
+  · rintro rfl
+    unfold matchesAt
+    obtain ⟨lastc, hl⟩ : ∃ c, src.getLast? = some c := by
+      cases h : src.getLast? with
+      | none => simp at h; exact absurd h hs
+      | some c => exact ⟨c, rfl⟩
+    have hst : stripPrefix src (src ++ r) = some r := (stripPrefix_eq_some _ _ _).2 rfl
+    rw [hl, hst]
+    have hlw : W lastc = true := hsk lastc (List.mem_of_getLast? hl)
+    cases src with
+    | nil => exact absurd rfl hs
+    | cons a s =>
+      have ha : W a = true := hsk a (by simp)
+      have hrb : isW W r.head? = false := by
+        cases hh : r.head? with
+        | none => rfl
+        | some c => simpa [isW] using hr c hh
+      have h1 : isW W (some a) = true := by simp [isW, ha]
+      have h2 : isW W (some lastc) = true := by simp [isW, hlw]
+      simp [boundary, hp, hrb, h1, h2]
+
+theorem find?_ext {α} (p q : α → Bool) (l : List α) (h : ∀ a ∈ l, p a = q a) :
+    l.find? p = l.find? q := by
+  induction l with
+  | nil => rfl
+  | cons a l ih =>
+    simp only [List.find?_cons, h a (by simp)]
+    rw [ih (fun b hb => h b (by simp [hb]))]
+
+theorem firstMatch_gap (alts : List Binding) (hA : WordAlts W alts) (prev : Option Char) (c : Char)
+    (cs : Str) (hc : W c = false) : firstMatch W alts prev (c :: cs) = none := by
+  unfold firstMatch
+  rw [List.find?_eq_none]
+  intro a ha
+  simp [matchesAt_nonword_head W prev a.1 c cs hc (hA a ha).2]
+
+theorem firstMatch_inword (alts : List Binding) (p c : Char) (cs : Str) (hp : W p = true)
+    (hc : W c = true) : firstMatch W alts (some p) (c :: cs) = none := by
+  unfold firstMatch
+  rw [List.find?_eq_none]
+  intro a _
+  simp [matchesAt_inword W p a.1 c cs hp hc]
+
+theorem firstMatch_word (alts : List Binding) (hA : WordAlts W alts) (prev : Option Char) (w r : Str)
+    (hp : isW W prev = false) (hw : w ≠ []) (hwk : AllW W true w) (hr : HeadIs W false r) :
+    firstMatch W alts prev (w ++ r) = alts.find? (fun a => decide (a.1 = w)) := by
+  unfold firstMatch
+  apply find?_ext
+  intro a ha
+  have := matchesAt_word W prev a.1 w r hp hw hwk hr (hA a ha).1 (hA a ha).2
+  by_cases h : a.1 = w
+  · rw [this.2 h]; simp [h]
+  · simp only [h, decide_false]
+    cases hm : matchesAt W prev a.1 (w ++ r) with
+    | false => rfl
+    | true => exact absurd (this.1 hm) h
+
+theorem scan_gap_cons (alts : List Binding) (hA : WordAlts W alts) (prev : Option Char) (c : Char)
+    (cs : Str) (hc : W c = false) :
+    scan W alts prev 0 (c :: cs) = c :: scan W alts (some c) 0 cs := by
+  simp [scan, firstMatch_gap W alts hA prev c cs hc]
+
+theorem scan_skip (alts : List Binding) (a r : Str) (prev : Option Char) :
+    ∃ q, scan W alts prev a.length (a ++ r) = scan W alts q 0 r := by
+  induction a generalizing prev with
+  | nil => exact ⟨prev, rfl⟩
+  | cons c a ih =>
+    obtain ⟨q, hq⟩ := ih (some c)
+    exact ⟨q, by simpa [scan] using hq⟩
+
+theorem scan_inword_run (alts : List Binding) (x r : Str) (p : Char) (hp : W p = true)
+    (hx : AllW W true x) :
+    ∃ q, scan W alts (some p) 0 (x ++ r) = x ++ scan W alts q 0 r := by
+  induction x generalizing p with
+  | nil => exact ⟨some p, rfl⟩
+  | cons c x ih =>
+    have hc : W c = true := hx c (by simp)
+    obtain ⟨q, hq⟩ := ih c hc (fun a ha => hx a (by simp [ha]))
+    refine ⟨q, ?_⟩
+    simp [scan, firstMatch_inword W alts p c (x ++ r) hp hc, hq]
+
+
+theorem find_lookup (alts : List Binding) (w : Str) :
+    (alts.find? (fun a => decide (a.1 = w))).map (·.2) = lookup alts w := by
+  induction alts with
+  | nil => rfl
+  | cons a alts ih =>
+    obtain ⟨s, d⟩ := a
+    by_cases h : s = w
+    · simp [lookup, h]
+    · simp [lookup, h, ih]
+
+/-- The scan started at a position that is not inside a word computes the token map. -/
+theorem scan_eq_substSim (alts : List Binding) (hA : WordAlts W alts) :
+    ∀ (n : Nat) (l : Str) (prev : Option Char), l.length = n →
+      (isW W prev = false ∨ HeadIs W false l) → scan W alts prev 0 l = substSim W alts l := by
+  intro n
+  induction n using Nat.strongRecOn with
+  | _ n ih =>
+    intro l prev hn hb
+    cases l with
+    | nil => simp [scan, substSim_nil]
+    | cons c cs =>
+      by_cases hc : W c = true
+      · -- at the start of a word
+        have hp : isW W prev = false := by
+          rcases hb with h | h
+          · exact h
+          · have := h c (by simp); rw [hc] at this; cases this
+        obtain ⟨w, r, hl, hw, hr⟩ := word_split_cons W c cs hc
+        have hcs : cs = w ++ r := by simpa using hl
+        have hfm := firstMatch_word W alts hA prev (c :: w) r hp (by simp) hw hr
+        rw [← hl] at hfm
+        rw [hl, substSim_run_word W alts (c :: w) r (by simp) hw hr, ← hl]
+        have hrlen : r.length < n := by rw [← hn, hcs]; simp; omega
+        cases hf : alts.find? (fun a => decide (a.1 = c :: w)) with
+        | none =>
+          have hlk : lookup alts (c :: w) = none := by rw [← find_lookup, hf]; rfl
+          simp only [scan, hfm, hf, hlk, Option.getD_none]
+          rw [hcs]
+          obtain ⟨q, hq⟩ := scan_inword_run W alts w r c hc (fun a ha => hw a (by simp [ha]))
+          rw [hq, ih r.length hrlen r q rfl (Or.inr hr)]
+          simp
+        | some a =>
+          have hlk : lookup alts (c :: w) = some a.2 := by rw [← find_lookup, hf]; rfl
+          have ha1 : a.1 = c :: w := by
+            have := List.find?_some hf
+            simpa using this
+          simp only [scan, hfm, hf, hlk, Option.getD_some]
+          rw [ha1, hcs]
+          obtain ⟨q, hq⟩ := scan_skip W alts w r (some c)
+          simp only [List.length_cons, Nat.add_sub_cancel]
+          rw [hq, ih r.length hrlen r q rfl (Or.inr hr)]
+      · -- a non-word character
+        have hc' : W c = false := by simpa using hc
+        rw [scan_gap_cons W alts hA prev c cs hc', substSim_cons_gap W alts c hc']
+        rw [ih cs.length (by rw [← hn]; simp) cs (some c) rfl (Or.inl (by simp [isW, hc']))]
+
+/-! ### the dictionary and the sort do not change what is looked up -/
+
+theorem lookup_filter_ne (ps : List Binding) (s w : Str) (h : s ≠ w) :
+    lookup (ps.filter (fun a => !decide (a.1 = s))) w = lookup ps w := by
+  induction ps with
+  | nil => rfl
+  | cons a ps ih =>
+    obtain ⟨s', d⟩ := a
+    by_cases h1 : s' = s
+    · subst h1
+      simp [lookup, h, ih]
+    · by_cases h2 : s' = w
+      · subst h2
+        have : ¬ s' = s := h1
+        simp [lookup, this]
+      · simp [lookup, h1, h2, ih]
+
+theorem lookup_dedupe (ps : List Binding) (w : Str) : lookup (dedupe ps) w = lookup ps w := by
+  induction ps with
+  | nil => rfl
+  | cons a ps ih =>
+    obtain ⟨s, d⟩ := a
+    by_cases h : s = w
+    · simp [dedupe, lookup, h]
+    · simp [dedupe, lookup, h, lookup_filter_ne _ _ _ h, ih]
+
+theorem dedupe_sub (ps : List Binding) : ∀ a ∈ dedupe ps, a ∈ ps := by
+  induction ps with
+  | nil => simp [dedupe]
+  | cons b ps ih =>
+    intro a ha
+    simp only [dedupe, List.mem_cons, List.mem_filter] at ha
+    rcases ha with rfl | ⟨ha, _⟩
+    · simp
+    · exact List.mem_cons_of_mem _ (ih a ha)
+
+theorem keys_dedupe_nodup (ps : List Binding) : (keys (dedupe ps)).Nodup := by
+  induction ps with
+  | nil => simp [dedupe, keys]
+  | cons b ps ih =>
+    simp only [dedupe, keys, List.map_cons, List.nodup_cons]
+    constructor
+    · intro h
+      rcases List.mem_map.1 h with ⟨a, ha, hab⟩
+      have := (List.mem_filter.1 ha).2
+      simp at this
+      exact this hab
+    · have : (List.map (·.1) (dedupe ps)).Nodup := ih
+      have hs : List.Sublist ((dedupe ps).filter (fun a => !decide (a.1 = b.1))) (dedupe ps) := List.filter_sublist
+      exact List.Nodup.sublist (List.Sublist.map _ hs) this
+
+theorem insertByLen_perm (b : Binding) (l : List Binding) : (insertByLen b l).Perm (b :: l) := by
+  induction l with
+  | nil => simp [insertByLen]
+  | cons a l ih =>
+    simp only [insertByLen]
+    split
+    · exact List.Perm.refl _
+    · exact (List.Perm.cons a ih).trans (List.Perm.swap b a l)
+
+theorem sort_perm (l : List Binding) : (sortByLenDesc l).Perm l := by
+  induction l with
+  | nil => simp [sortByLenDesc]
+  | cons b l ih =>
+    simp only [sortByLenDesc]
+    exact (insertByLen_perm b _).trans (List.Perm.cons b ih)
+
+theorem lookup_eq_none_of_not_mem (ps : List Binding) (w : Str) (h : w ∉ keys ps) : lookup ps w = none := by
+  induction ps with
+  | nil => rfl
+  | cons a ps ih =>
+    obtain ⟨s, d⟩ := a
+    simp only [keys, List.map_cons, List.mem_cons, not_or] at h
+    simp only [lookup]
+    rw [if_neg (fun e => h.1 e.symm)]
+    exact ih h.2
+
+/-- with distinct source names the order of the bindings is irrelevant -/
+theorem lookup_perm (ps qs : List Binding) (hp : ps.Perm qs) (hn : (keys ps).Nodup) (w : Str) :
+    lookup ps w = lookup qs w := by
+  induction hp with
+  | nil => rfl
+  | cons a _ ih =>
+    obtain ⟨s, d⟩ := a
+    simp only [keys, List.map_cons, List.nodup_cons] at hn
+    simp only [lookup]
+    rw [ih hn.2]
+  | swap a b l =>
+    obtain ⟨s, d⟩ := a
+    obtain ⟨s', d'⟩ := b
+    simp only [keys, List.map_cons, List.nodup_cons, List.mem_cons, not_or] at hn
+    simp only [lookup]
+    by_cases h1 : s' = w
+    · by_cases h2 : s = w
+      · exact absurd (h1.trans h2.symm) hn.1.1
+      · simp [h1, h2]
+    · simp [h1]
+  | trans h1 _ ih1 ih2 =>
+    rw [ih1 hn, ih2 ((List.Perm.nodup_iff (List.Perm.map _ h1)).1 hn)]
+
+
+theorem substSim_congr (ps qs : List Binding) (h : ∀ w, lookup ps w = lookup qs w) (l : Str) :
+    substSim W ps l = substSim W qs l := by
+  unfold substSim
+  congr 1
+  funext t
+  simp [substTok, h]
+
+theorem substTok_nil (t : Tok) : substTok [] t = t.text := by
+  simp [substTok, lookup]
+
+theorem wordAlts_of_wordNames (ps alts : List Binding) (h : WordNames W ps) (hs : ∀ a ∈ alts, a ∈ ps) :
+    WordAlts W alts := by
+  intro a ha
+  have := h a (hs a ha)
+  simp only [isWordStr, Bool.and_eq_true, Bool.not_eq_true', List.isEmpty_eq_false_iff, List.all_eq_true] at this
+  exact ⟨this.1, this.2⟩
+
+/-- the model of `_replace_whole_words` is the token map, whenever the source names are words -/
+theorem replaceWholeWords_eq (ps : List Binding) (h : WordNames W ps) (line : Str) :
+    replaceWholeWords W ps line = substSim W ps line := by
+  unfold replaceWholeWords
+  split
+  · next hd =>
+    have : ∀ w, lookup ps w = none := by
+      intro w; rw [← lookup_dedupe, hd]; rfl
+    have hl : substSim W ps line = substSim W [] line := substSim_congr W ps [] (fun w => by rw [this]; rfl) line
+    rw [hl]
+    simp only [substSim]
+    have : (fun t => substTok [] t) = (fun t : Tok => t.text) := by funext t; exact substTok_nil t
+    have h2 : (tokenise W line).flatMap (substTok []) = detok (tokenise W line) := by
+      simp only [detok]; congr 1
+    rw [h2, detok_tokenise]
+  · next lk hne =>
+    have hperm := sort_perm (dedupe ps)
+    have hA : WordAlts W (sortByLenDesc (dedupe ps)) :=
+      wordAlts_of_wordNames W ps _ h (fun a ha => dedupe_sub ps a ((List.Perm.mem_iff hperm).1 ha))
+    rw [scan_eq_substSim W _ hA line.length line none rfl (Or.inl rfl)]
+    apply substSim_congr
+    intro w
+    rw [← lookup_perm _ _ hperm.symm (keys_dedupe_nodup ps) w, lookup_dedupe]
+
+/-! ### declarative laws of `substSim` -/
+
+/-- cutting the line anywhere but inside a word -/
+theorem substSim_append (ps : List Binding) :
+    ∀ (n : Nat) (a b : Str), a.length = n → (LastIs W false a ∨ HeadIs W false b) →
+      substSim W ps (a ++ b) = substSim W ps a ++ substSim W ps b := by
+  intro n
+  induction n using Nat.strongRecOn with
+  | _ n ih =>
+    intro a b hn hb
+    cases a with
+    | nil => simp [substSim_nil]
+    | cons c cs =>
+      by_cases hc : W c = true
+      · obtain ⟨w, r, hl, hw, hr⟩ := word_split_cons W c cs hc
+        cases r with
+        | nil =>
+          -- `a` is one word: `b` must start with a non-word character
+          have hb' : HeadIs W false b := by
+            rcases hb with h | h
+            · have hne : (c :: cs) ≠ [] := by simp
+              obtain ⟨z, hz⟩ : ∃ z, (c :: cs).getLast? = some z := by
+                cases hh : (c :: cs).getLast? with
+                | none => simp at hh
+                | some z => exact ⟨z, rfl⟩
+              have h1 := h z hz
+              have h2 : W z = true := by
+                rw [hl] at hz
+                exact hw z (by simpa using List.mem_of_getLast? hz)
+              rw [h1] at h2; cases h2
+            · exact h
+          rw [hl]
+          simp only [List.append_nil]
+          rw [substSim_run_word W ps (c :: w) b (by simp) hw hb']
+          have := substSim_run_word W ps (c :: w) [] (by simp) hw (by simp [HeadIs])
+          simp only [List.append_nil] at this
+          rw [this, substSim_nil]; simp
+        | cons d ds =>
+          have hrlen : (d :: ds).length < n := by
+            rw [← hn, hl]; simp; omega
+          have hr' : HeadIs W false ((d :: ds) ++ b) := by
+            intro z hz; exact hr z (by simpa using hz)
+          have hlast : LastIs W false (d :: ds) ∨ HeadIs W false b := by
+            rcases hb with h | h
+            · left
+              intro z hz
+              apply h z
+              rw [hl, List.getLast?_append]
+              simp [hz]
+            · exact Or.inr h
+          rw [hl, List.append_assoc, substSim_run_word W ps (c :: w) _ (by simp) hw hr',
+            ih _ hrlen (d :: ds) b rfl hlast, substSim_run_word W ps (c :: w) _ (by simp) hw hr]
+          simp
+      · have hc' : W c = false := by simpa using hc
+        have hlast : LastIs W false cs ∨ HeadIs W false b := by
+          rcases hb with h | h
+          · cases cs with
+            | nil => left; intro z hz; simp at hz
+            | cons e es =>
+              left; intro z hz; apply h z
+              rw [List.getLast?_cons_cons]; exact hz
+          · exact Or.inr h
+        simp only [List.cons_append]
+        rw [substSim_cons_gap W ps c hc', substSim_cons_gap W ps c hc',
+          ih cs.length (by rw [← hn]; simp) cs b rfl hlast]
+        simp
+
+theorem substSim_word (ps : List Binding) (w : Str) (hw : w ≠ []) (hk : AllW W true w) :
+    substSim W ps w = (lookup ps w).getD w := by
+  have := substSim_run_word W ps w [] hw hk (by simp [HeadIs])
+  simpa [substSim_nil] using this
+
+theorem substSim_gap (ps : List Binding) (g : Str) (hk : AllW W false g) :
+    substSim W ps g = g := by
+  induction g with
+  | nil => exact substSim_nil W ps
+  | cons c g ih =>
+    rw [substSim_cons_gap W ps c (hk c (by simp)), ih (fun a ha => hk a (by simp [ha]))]
+
+
+theorem pushChar_ok (c : Char) (ts : List Tok) (h : ∀ t ∈ ts, TokOk W t) :
+    ∀ t ∈ pushChar W c ts, TokOk W t := by
+  cases ts with
+  | nil =>
+    intro t ht
+    simp only [pushChar, List.mem_singleton] at ht
+    subst ht
+    exact ⟨by simp, by intro a ha; simp at ha; subst ha; rfl⟩
+  | cons u ts =>
+    simp only [pushChar]
+    split
+    · next hu =>
+      intro t ht
+      rcases List.mem_cons.1 ht with rfl | ht
+      · refine ⟨by simp, ?_⟩
+        intro a ha
+        rcases List.mem_cons.1 ha with rfl | ha
+        · exact hu.symm
+        · exact (h u (by simp)).2 a ha
+      · exact h t (by simp [ht])
+    · intro t ht
+      rcases List.mem_cons.1 ht with rfl | ht
+      · exact ⟨by simp, by intro a ha; simp at ha; subst ha; rfl⟩
+      · exact h t ht
+
+theorem tokenise_ok (l : Str) : ∀ t ∈ tokenise W l, TokOk W t := by
+  induction l with
+  | nil => simp [tokenise]
+  | cons c cs ih => exact pushChar_ok W c _ ih
+
+theorem pushChar_alt (c : Char) (ts : List Tok) (h : Alternating ts) : Alternating (pushChar W c ts) := by
+  cases ts with
+  | nil => simp [pushChar, Alternating]
+  | cons u ts =>
+    simp only [pushChar]
+    split
+    · cases ts with
+      | nil => simp [Alternating]
+      | cons v ts => exact ⟨h.1, h.2⟩
+    · next hu => exact ⟨fun e => hu e.symm, h⟩
+
+theorem tokenise_alt (l : Str) : Alternating (tokenise W l) := by
+  induction l with
+  | nil => simp [tokenise, Alternating]
+  | cons c cs ih => exact pushChar_alt W c _ ih
+
+theorem tokenise_unique (ts : List Tok) (hok : ∀ t ∈ ts, TokOk W t) (halt : Alternating ts) :
+    tokenise W (detok ts) = ts := by
+  induction ts with
+  | nil => simp [detok, tokenise]
+  | cons t ts ih =>
+    have ht := hok t (by simp)
+    have hd : detok (t :: ts) = t.text ++ detok ts := by simp [detok]
+    rw [hd]
+    have hhead : HeadIs W (!t.isWord) (detok ts) := by
+      cases ts with
+      | nil => simp [detok, HeadIs]
+      | cons u ts =>
+        have hu := hok u (by simp)
+        intro c hc
+        have hne : u.isWord = !t.isWord := by
+          have := halt.1
+          cases h1 : t.isWord <;> cases h2 : u.isWord <;> simp_all
+        cases hut : u.text with
+        | nil => exact absurd hut hu.1
+        | cons a as =>
+          simp [detok, hut] at hc
+          subst hc
+          rw [← hne]
+          exact hu.2 a (by simp [hut])
+    have halt' : Alternating ts := by
+      cases ts with
+      | nil => simp [Alternating]
+      | cons u ts => exact halt.2
+    rw [tokenise_run W t.isWord t.text (detok ts) ht.1 ht.2 hhead,
+      ih (fun u hu => hok u (by simp [hu])) halt']
+
 end PartA
+
+/-! ## Part B -/
+
+theorem build_isOk (spec : FSpec) (f : Expr) (args : List Expr) :
+    isOk (buildCPPCodeValue spec f args) = BuildAccepts spec f args := by
+  unfold buildCPPCodeValue BuildAccepts handlerAcceptsS
+  by_cases h : args.length = spec.args.length
+  · simp only [h, ne_eq, not_true_eq_false, if_false, beq_self_eq_true, Bool.true_and]
+    cases shape f <;> cases spec.methodObject <;> simp [isOk]
+  · simp [h, isOk]
+
+theorem build_ok_form (spec : FSpec) (f : Expr) (args : List Expr) (e : Expr)
+    (h : buildCPPCodeValue spec f args = .ok e) :
+    e = .cpp (spec.toCodeValue (expectedInstance spec f)) args := by
+  unfold buildCPPCodeValue at h
+  unfold expectedInstance
+  split at h
+  · cases h
+  · cases hs : shape f <;> cases hm : spec.methodObject <;> simp [hs, hm] at h ⊢ <;> exact h.symm
+
+theorem applyHandler_isOk (h : Handler) (f : Expr) (args : List Expr) :
+    isOk (applyHandler h f args) = handlerAcceptsS h (shape f) args.length := by
+  cases h with
+  | spec s => exact build_isOk s f args
+  | nonnull =>
+    unfold applyHandler handlerAcceptsS
+    by_cases h : args.length = 1 <;> simp [h, isOk]
+  | refuse => simp [applyHandler, handlerAcceptsS, isOk]
+
+theorem applyHandler_ok_form (h : Handler) (f : Expr) (args : List Expr) (e : Expr)
+    (he : applyHandler h f args = .ok e) : ∃ cv, e = .cpp cv args := by
+  cases h with
+  | spec s => exact ⟨_, build_ok_form s f args e (by simpa [applyHandler] using he)⟩
+  | nonnull =>
+    simp only [applyHandler] at he
+    by_cases hl : args.length = 1
+    · simp [hl] at he; exact ⟨_, he.symm⟩
+    · simp [hl] at he
+  | refuse => simp [applyHandler] at he
+
+/-! ## Part C -/
+
+theorem shape_name_iff (e : Expr) (n : Str) : shape e = .name n ↔ e = .name n := by
+  constructor
+  · intro h
+    cases e with
+    | name m => simp [shape] at h; rw [h]
+    | attr o a => cases o <;> simp [shape] at h
+    | _ => simp [shape] at h
+  · rintro rfl; rfl
+
+theorem shape_attr_other (o : Expr) (a : Str) (h : ∀ r, o ≠ .name r) : shape (.attr o a) = .attrOther a := by
+  cases o <;> first | rfl | exact absurd rfl (h _)
+
+/-- the shape of `.attr o a` is determined by the shape of `o` -/
+theorem shape_attr (o o' : Expr) (a : Str) (h : shape o' = shape o) :
+    shape (.attr o' a) = shape (.attr o a) := by
+  by_cases hn : ∃ r, o = .name r
+  · obtain ⟨r, rfl⟩ := hn
+    have := (shape_name_iff o' r).1 (by rw [h]; rfl)
+    subst this; rfl
+  · have hn' : ∀ r, o' ≠ .name r :=
+      fun r e => hn ⟨r, (shape_name_iff o r).1 (by rw [← h, e]; rfl)⟩
+    rw [shape_attr_other o a (fun r e => hn ⟨r, e⟩), shape_attr_other o' a hn']
+
+theorem calleeNameFull_of_key (f : Expr) (k : Str) (h : calleeKey f = some k) : calleeNameFull f = some k := by
+  unfold calleeKey at h
+  unfold calleeNameFull
+  cases hs : shape f <;> simp [hs] at h ⊢ <;> exact h
+
+mutual
+theorem finder_spec (tbl : Table) : ∀ e : Expr,
+    (∀ e', finder tbl e = .ok e' →
+        SitesOk tbl e = true ∧ shape e' = shape e ∧
+        (ReceiverPlain tbl e = true → NoPendingFull tbl e' = true)) ∧
+    (∀ x, finder tbl e = .error x → SitesOk tbl e = false)
+  | .name _ => by simp [finder, SitesOk, NoPendingFull]
+  | .const _ => by simp [finder, SitesOk, NoPendingFull]
+  | .opaque _ => by simp [finder, SitesOk, NoPendingFull]
+  | .attr o a => by
+    have ih := finder_spec tbl o
+    simp only [finder, SitesOk, ReceiverPlain]
+    cases h : finder tbl o with
+    | error x => simp [ih.2 x h]
+    | ok o' =>
+      obtain ⟨h1, h2, h3⟩ := ih.1 o' h
+      simp only [Except.ok.injEq, forall_eq', reduceCtorEq, false_implies, implies_true, and_true]
+      exact ⟨h1, shape_attr o o' a h2, fun hr => by simpa [NoPendingFull] using h3 hr⟩
+  | .binop op l r => by
+    have ihl := finder_spec tbl l
+    have ihr := finder_spec tbl r
+    simp only [finder, SitesOk, ReceiverPlain]
+    cases hl : finder tbl l with
+    | error x => simp [ihl.2 x hl]
+    | ok l' =>
+      cases hr : finder tbl r with
+      | error x => simp [ihr.2 x hr]
+      | ok r' =>
+        obtain ⟨a1, _, a3⟩ := ihl.1 l' hl
+        obtain ⟨b1, _, b3⟩ := ihr.1 r' hr
+        simp only [Except.ok.injEq, forall_eq', reduceCtorEq, false_implies, implies_true, and_true]
+        refine ⟨by simp [a1, b1], rfl, fun hp => ?_⟩
+        simp only [Bool.and_eq_true] at hp
+        simp [NoPendingFull, a3 hp.1, b3 hp.2]
+  | .cpp cv args => by
+    have ih := finderList_spec tbl args
+    simp only [finder, SitesOk, ReceiverPlain]
+    cases h : finderList tbl args with
+    | error x => simp [ih.2 x h]
+    | ok args' =>
+      obtain ⟨h1, _, h3⟩ := ih.1 args' h
+      simp only [Except.ok.injEq, forall_eq', reduceCtorEq, false_implies, implies_true, and_true]
+      exact ⟨h1, rfl, fun hp => by simpa [NoPendingFull] using h3 hp⟩
+  | .call f args => by
+    have ihf := finder_spec tbl f
+    have iha := finderList_spec tbl args
+    simp only [finder, SitesOk, ReceiverPlain]
+    cases hf : finder tbl f with
+    | error x => simp [ihf.2 x hf]
+    | ok f' =>
+      obtain ⟨f1, f2, f3⟩ := ihf.1 f' hf
+      cases ha : finderList tbl args with
+      | error x => simp [iha.2 x ha]
+      | ok args' =>
+        obtain ⟨a1, a2, a3⟩ := iha.1 args' ha
+        have hkey : calleeKey f' = calleeKey f := by simp [calleeKey, f2]
+        simp only [f1, a1, Bool.true_and]
+        rw [hkey]
+        cases hk : calleeKey f with
+        | none =>
+          simp only [Option.bind_none, Except.ok.injEq, forall_eq', reduceCtorEq, false_implies,
+            implies_true, and_true, true_and]
+          refine ⟨rfl, fun hp => ?_⟩
+          simp only [Bool.and_eq_true] at hp
+          obtain ⟨⟨p1, p2⟩, p3⟩ := hp
+          simp only [NoPendingFull, f3 p1, a3 p2, Bool.true_and, calleeNameFull, f2]
+          unfold calleeKey at hk
+          cases hs : shape f <;> simp [hs] at hk p3 ⊢
+          exact p3
+        | some k =>
+          simp only [Option.bind_some]
+          cases hg : tbl.get? k with
+          | none =>
+            simp only [Except.ok.injEq, forall_eq', reduceCtorEq, false_implies, implies_true,
+              and_true, true_and]
+            refine ⟨rfl, fun hp => ?_⟩
+            simp only [Bool.and_eq_true] at hp
+            obtain ⟨⟨p1, p2⟩, _⟩ := hp
+            have : calleeNameFull f' = some k := calleeNameFull_of_key f' k (by rw [hkey, hk])
+            simp [NoPendingFull, f3 p1, a3 p2, this, hg]
+          | some h =>
+            have hok := applyHandler_isOk h f' args'
+            rw [f2, a2] at hok
+            simp only
+            cases hh : applyHandler h f' args' with
+            | error x =>
+              rw [hh] at hok
+              simp [isOk] at hok
+              simp [hok]
+            | ok e' =>
+              rw [hh] at hok
+              simp only [isOk] at hok
+              obtain ⟨cv, rfl⟩ := applyHandler_ok_form h f' args' e' hh
+              simp only [Except.ok.injEq, forall_eq', reduceCtorEq, false_implies, implies_true,
+                and_true]
+              refine ⟨hok.symm, ?_, fun hp => ?_⟩
+              · simp [shape]
+              · simp only [Bool.and_eq_true] at hp
+                simpa [NoPendingFull] using a3 hp.1.2
+theorem finderList_spec (tbl : Table) : ∀ es : List Expr,
+    (∀ es', finderList tbl es = .ok es' →
+        SitesOkList tbl es = true ∧ es'.length = es.length ∧
+        (ReceiverPlainList tbl es = true → NoPendingFullList tbl es' = true)) ∧
+    (∀ x, finderList tbl es = .error x → SitesOkList tbl es = false)
+  | [] => by simp [finderList, SitesOkList, NoPendingFullList]
+  | e :: es => by
+    have ihe := finder_spec tbl e
+    have ihs := finderList_spec tbl es
+    simp only [finderList, SitesOkList, ReceiverPlainList]
+    cases he : finder tbl e with
+    | error x => simp [ihe.2 x he]
+    | ok e' =>
+      obtain ⟨e1, _, e3⟩ := ihe.1 e' he
+      cases hs : finderList tbl es with
+      | error x => simp [ihs.2 x hs]
+      | ok es' =>
+        obtain ⟨s1, s2, s3⟩ := ihs.1 es' hs
+        simp only [Except.ok.injEq, forall_eq', reduceCtorEq, false_implies, implies_true, and_true]
+        refine ⟨by simp [e1, s1], by simp [s2], fun hp => ?_⟩
+        simp only [Bool.and_eq_true] at hp
+        simp [NoPendingFullList, e3 hp.1, s3 hp.2]
+end
+
+
+/-! ## Part D -/
+
+theorem addIncludes_sub (acc is : List Str) :
+    (∀ i ∈ acc, i ∈ addIncludes acc is) ∧ (∀ i ∈ is, i ∈ addIncludes acc is) := by
+  induction is generalizing acc with
+  | nil => simp [addIncludes]
+  | cons x xs ih =>
+    simp only [addIncludes]
+    by_cases hx : x ∈ acc
+    · simp only [hx, if_true]
+      refine ⟨(ih acc).1, ?_⟩
+      intro i hi
+      rcases List.mem_cons.1 hi with rfl | hi
+      · exact (ih acc).1 _ hx
+      · exact (ih acc).2 i hi
+    · simp only [hx, if_false]
+      refine ⟨fun i hi => (ih _).1 i (by simp [hi]), ?_⟩
+      intro i hi
+      rcases List.mem_cons.1 hi with rfl | hi
+      · exact (ih _).1 _ (by simp)
+      · exact (ih _).2 i hi
+
+theorem wordNames_replList (W : Char → Bool) (cv : CodeValue) (h : cvWellFormed W cv = true)
+    (recv : Option Str) (texts : List Str) : WordNames W (replList cv recv texts) := by
+  simp only [cvWellFormed, Bool.and_eq_true, List.all_eq_true] at h
+  intro p hp
+  simp only [replList, List.mem_append] at hp
+  rcases hp with hp | hp
+  · cases hi : cv.instance_ with
+    | none => simp [hi] at hp
+    | some mr =>
+      obtain ⟨mo, r⟩ := mr
+      cases recv with
+      | none => simp [hi] at hp
+      | some t =>
+        simp [hi] at hp
+        subst hp
+        have := h.2
+        simpa [hi] using this
+  · exact h.1 p.1 (List.of_mem_zip hp).1
+
+theorem blockLines_eq (W : Char → Bool) (cv : CodeValue) (h : cvWellFormed W cv = true)
+    (recv : Option Str) (texts : List Str) :
+    blockLines W cv (replList cv recv texts) = expectedLines W cv recv texts := by
+  simp only [blockLines, expectedLines]
+  apply List.map_congr_left
+  intro l _
+  rw [replaceWholeWords_eq W _ (wordNames_replList W cv h recv texts)]
+
+mutual
+theorem emit_check (W : Char → Bool) (env : Env) : ∀ (e : Expr) (s : St) (t : Str) (s' : St),
+    emit W env e s = .ok (t, s') → WF W e = true →
+    ∃ newD newB, s'.decls = s.decls ++ newD ∧ s'.stmts = s.stmts ++ newB ∧
+      (∀ i ∈ s.includes, i ∈ s'.includes) ∧
+      (∀ D I rest, (∀ d ∈ newD, d ∈ D) → (∀ i ∈ s'.includes, i ∈ I) →
+        check W env D I e (newB ++ rest) = some (t, rest))
+  | .opaque x, s, t, s', h, _ => by
+    simp only [emit, Except.ok.injEq, Prod.mk.injEq] at h
+    obtain ⟨rfl, rfl⟩ := h
+    exact ⟨[], [], by simp, by simp, fun i hi => hi, fun D I rest _ _ => by simp [check]⟩
+  | .const x, s, t, s', h, _ => by
+    simp only [emit, Except.ok.injEq, Prod.mk.injEq] at h
+    obtain ⟨rfl, rfl⟩ := h
+    exact ⟨[], [], by simp, by simp, fun i hi => hi, fun D I rest _ _ => by simp [check]⟩
+  | .name id, s, t, s', h, _ => by
+    simp only [emit] at h
+    cases hg : env.get? id with
+    | none => simp [hg] at h
+    | some v =>
+      simp only [hg, Except.ok.injEq, Prod.mk.injEq] at h
+      obtain ⟨rfl, rfl⟩ := h
+      exact ⟨[], [], by simp, by simp, fun i hi => hi, fun D I rest _ _ => by simp [check, hg]⟩
+  | .attr _ _, s, t, s', h, _ => by simp [emit] at h
+  | .call _ _, s, t, s', h, _ => by simp [emit] at h
+  | .binop _ _ _, s, t, s', h, _ => by simp [emit] at h
+  | .cpp cv args, s, t, s', h, hwf => by
+    simp only [WF, Bool.and_eq_true] at hwf
+    simp only [emit] at h
+    cases hr : recvOf env cv with
+    | none => simp [hr] at h
+    | some recv =>
+      simp only [hr] at h
+      cases hl : emitList W env args
+          { s with next := s.next + 1,
+                   decls := s.decls ++ [.decl (declType cv) (uniqueName cv.varPrefix s.next)],
+                   includes := addIncludes s.includes cv.includes } with
+      | error x => simp [hl] at h
+      | ok r =>
+        obtain ⟨texts, s2⟩ := r
+        simp only [hl, Except.ok.injEq, Prod.mk.injEq] at h
+        obtain ⟨rfl, rfl⟩ := h
+        obtain ⟨nd, nb, hd, hb, hi, hc⟩ := emitList_check W env args _ texts s2 hl hwf.2
+        refine ⟨.decl (declType cv) (uniqueName cv.varPrefix s.next) :: nd,
+          nb ++ [.block (blockLines W cv (replList cv recv texts)) (uniqueName cv.varPrefix s.next) cv.result],
+          by simp [hd], by simp [hb], ?_, ?_⟩
+        · intro i his
+          exact hi i ((addIncludes_sub s.includes cv.includes).1 i his)
+        · intro D I rest hD hI
+          simp only [check, hr]
+          have := hc D I (.block (blockLines W cv (replList cv recv texts)) (uniqueName cv.varPrefix s.next) cv.result :: rest)
+            (fun d hd => hD d (by simp [hd])) hI
+          simp only [List.append_assoc, List.singleton_append]
+          rw [this]
+          simp only
+          have hdecl : Item.decl (declType cv) (uniqueName cv.varPrefix s.next) ∈ D := hD _ (by simp)
+          have hinc : ∀ i ∈ cv.includes, i ∈ I := fun i hic =>
+            hI i (hi i ((addIncludes_sub s.includes cv.includes).2 i hic))
+          rw [if_pos ⟨trivial, hdecl, blockLines_eq W cv hwf.1 recv texts, hinc⟩]
+theorem emitList_check (W : Char → Bool) (env : Env) : ∀ (es : List Expr) (s : St) (ts : List Str) (s' : St),
+    emitList W env es s = .ok (ts, s') → WFList W es = true →
+    ∃ newD newB, s'.decls = s.decls ++ newD ∧ s'.stmts = s.stmts ++ newB ∧
+      (∀ i ∈ s.includes, i ∈ s'.includes) ∧
+      (∀ D I rest, (∀ d ∈ newD, d ∈ D) → (∀ i ∈ s'.includes, i ∈ I) →
+        checkList W env D I es (newB ++ rest) = some (ts, rest))
+  | [], s, ts, s', h, _ => by
+    simp only [emitList, Except.ok.injEq, Prod.mk.injEq] at h
+    obtain ⟨rfl, rfl⟩ := h
+    exact ⟨[], [], by simp, by simp, fun i hi => hi, fun D I rest _ _ => by simp [checkList]⟩
+  | e :: es, s, ts, s', h, hwf => by
+    simp only [WFList, Bool.and_eq_true] at hwf
+    simp only [emitList] at h
+    cases he : emit W env e s with
+    | error x => simp [he] at h
+    | ok r =>
+      obtain ⟨t, s1⟩ := r
+      simp only [he] at h
+      cases hes : emitList W env es s1 with
+      | error x => simp [hes] at h
+      | ok r2 =>
+        obtain ⟨ts2, s2⟩ := r2
+        simp only [hes, Except.ok.injEq, Prod.mk.injEq] at h
+        obtain ⟨rfl, rfl⟩ := h
+        obtain ⟨d1, b1, hd1, hb1, hi1, hc1⟩ := emit_check W env e s t s1 he hwf.1
+        obtain ⟨d2, b2, hd2, hb2, hi2, hc2⟩ := emitList_check W env es s1 ts2 s2 hes hwf.2
+        refine ⟨d1 ++ d2, b1 ++ b2, by simp [hd2, hd1], by simp [hb2, hb1],
+          fun i hi => hi2 i (hi1 i hi), ?_⟩
+        intro D I rest hD hI
+        simp only [checkList, List.append_assoc]
+        rw [hc1 D I (b2 ++ rest) (fun d hd => hD d (by simp [hd])) (fun i hi => hI i (hi2 i hi))]
+        simp only
+        rw [hc2 D I rest (fun d hd => hD d (by simp [hd])) hI]
+end
+
+
+theorem natStr_digits (n : Nat) : ∀ c ∈ natStr n, c.isDigit = true :=
+  fun _ hc => Nat.isDigit_of_mem_toDigits (by decide) (by decide) hc
+
+theorem natStr_ne_nil (n : Nat) : natStr n ≠ [] := Nat.toDigits_ne_nil
+
+theorem natStr_inj (i j : Nat) (h : natStr i = natStr j) : i = j := by
+  have hi := @Nat.ofDigitChars_ten_toDigits i
+  have hj := @Nat.ofDigitChars_ten_toDigits j
+  unfold natStr at h
+  rw [h] at hi
+  exact hi.symm.trans hj
+
+theorem getLast?_append_ne_nil {α} (a b : List α) (hb : b ≠ []) : (a ++ b).getLast? = b.getLast? := by
+  cases b with
+  | nil => exact absurd rfl hb
+  | cons x xs =>
+    rw [List.getLast?_append]
+    cases h : (x :: xs).getLast? with
+    | none => simp at h
+    | some z => rfl
+
+/-- with prefixes that do not end in a digit, the generated name determines the index -/
+theorem uniqueName_inj (p q : Str) (i j : Nat) (hp : noDigitEnd p = true) (hq : noDigitEnd q = true)
+    (h : uniqueName p i = uniqueName q j) : i = j := by
+  unfold uniqueName at h
+  have key : ∀ (p q : Str) (i j : Nat), noDigitEnd q = true → ∀ x, q = p ++ x → natStr i = x ++ natStr j → i = j := by
+    intro p q i j hq x hx1 hx2
+    cases x with
+    | nil => exact natStr_inj i j (by simpa using hx2)
+    | cons y ys =>
+      exfalso
+      have hne : (y :: ys) ≠ [] := by simp
+      obtain ⟨z, hz⟩ : ∃ z, (y :: ys).getLast? = some z := by
+        cases hh : (y :: ys).getLast? with
+        | none => simp at hh
+        | some z => exact ⟨z, rfl⟩
+      have hzq : q.getLast? = some z := by rw [hx1, getLast?_append_ne_nil _ _ hne, hz]
+      have hzd : z.isDigit = true := by
+        apply natStr_digits i
+        rw [hx2]
+        exact List.mem_append_left _ (List.mem_of_getLast? hz)
+      simp [noDigitEnd, hzq, hzd] at hq
+  rcases List.append_eq_append_iff.1 h with ⟨x, hx1, hx2⟩ | ⟨x, hx1, hx2⟩
+  · exact key p q i j hq x hx1 hx2
+  · exact (key q p j i hp x hx1 hx2).symm
+
+/-- the names declared by a piece of emission: pairwise distinct, each `prefix ++ index` with
+an index of the half-open range and a prefix without digit at its end -/
+def FreshIn (lo hi : Nat) (ds : List Item) : Prop :=
+  (ds.filterMap declName).Nodup ∧
+  ∀ n ∈ ds.filterMap declName, ∃ p i, n = uniqueName p i ∧ noDigitEnd p = true ∧ lo ≤ i ∧ i < hi
+
+theorem freshIn_nil (lo hi : Nat) : FreshIn lo hi [] := by simp [FreshIn]
+
+theorem freshIn_mono (lo lo' hi hi' : Nat) (ds : List Item) (h : FreshIn lo hi ds) (h1 : lo' ≤ lo)
+    (h2 : hi ≤ hi') : FreshIn lo' hi' ds := by
+  refine ⟨h.1, fun n hn => ?_⟩
+  obtain ⟨p, i, e, hp, a, b⟩ := h.2 n hn
+  exact ⟨p, i, e, hp, by omega, by omega⟩
+
+theorem freshIn_append (lo mid hi : Nat) (a b : List Item) (ha : FreshIn lo mid a) (hb : FreshIn mid hi b)
+    (hlm : lo ≤ mid) (hmh : mid ≤ hi) : FreshIn lo hi (a ++ b) := by
+  constructor
+  · rw [List.filterMap_append, List.nodup_append]
+    refine ⟨ha.1, hb.1, ?_⟩
+    intro x hx y hy hxy
+    obtain ⟨p, i, e1, hp, _, hi1⟩ := ha.2 x hx
+    obtain ⟨q, j, e2, hq, hj1, _⟩ := hb.2 y hy
+    have := uniqueName_inj p q i j hp hq (by rw [← e1, ← e2, hxy])
+    omega
+  · intro n hn
+    rw [List.filterMap_append, List.mem_append] at hn
+    rcases hn with hn | hn
+    · obtain ⟨p, i, e, hp, a1, a2⟩ := ha.2 n hn
+      exact ⟨p, i, e, hp, a1, by omega⟩
+    · obtain ⟨p, i, e, hp, a1, a2⟩ := hb.2 n hn
+      exact ⟨p, i, e, hp, by omega, a2⟩
+
+mutual
+theorem emit_fresh (W : Char → Bool) (env : Env) : ∀ (e : Expr) (s : St) (t : Str) (s' : St),
+    emit W env e s = .ok (t, s') → PrefixOk e = true →
+    ∃ newD, s'.decls = s.decls ++ newD ∧ s.next ≤ s'.next ∧ FreshIn s.next s'.next newD
+  | .opaque x, s, t, s', h, _ => by
+    simp only [emit, Except.ok.injEq, Prod.mk.injEq] at h
+    obtain ⟨rfl, rfl⟩ := h
+    exact ⟨[], by simp, Nat.le_refl _, freshIn_nil _ _⟩
+  | .const x, s, t, s', h, _ => by
+    simp only [emit, Except.ok.injEq, Prod.mk.injEq] at h
+    obtain ⟨rfl, rfl⟩ := h
+    exact ⟨[], by simp, Nat.le_refl _, freshIn_nil _ _⟩
+  | .name id, s, t, s', h, _ => by
+    simp only [emit] at h
+    cases hg : env.get? id with
+    | none => simp [hg] at h
+    | some v =>
+      simp only [hg, Except.ok.injEq, Prod.mk.injEq] at h
+      obtain ⟨rfl, rfl⟩ := h
+      exact ⟨[], by simp, Nat.le_refl _, freshIn_nil _ _⟩
+  | .attr _ _, s, t, s', h, _ => by simp [emit] at h
+  | .call _ _, s, t, s', h, _ => by simp [emit] at h
+  | .binop _ _ _, s, t, s', h, _ => by simp [emit] at h
+  | .cpp cv args, s, t, s', h, hp => by
+    simp only [PrefixOk, Bool.and_eq_true] at hp
+    simp only [emit] at h
+    cases hr : recvOf env cv with
+    | none => simp [hr] at h
+    | some recv =>
+      simp only [hr] at h
+      cases hl : emitList W env args
+          { s with next := s.next + 1,
+                   decls := s.decls ++ [.decl (declType cv) (uniqueName cv.varPrefix s.next)],
+                   includes := addIncludes s.includes cv.includes } with
+      | error x => simp [hl] at h
+      | ok r =>
+        obtain ⟨texts, s2⟩ := r
+        simp only [hl, Except.ok.injEq, Prod.mk.injEq] at h
+        obtain ⟨rfl, rfl⟩ := h
+        obtain ⟨nd, hd, hn, hf⟩ := emitList_fresh W env args _ texts s2 hl hp.2
+        simp only at hd hn hf
+        refine ⟨[.decl (declType cv) (uniqueName cv.varPrefix s.next)] ++ nd, by simp [hd], by simp; omega, ?_⟩
+        have h1 : FreshIn s.next (s.next + 1) [.decl (declType cv) (uniqueName cv.varPrefix s.next)] := by
+          refine ⟨by simp [declName], ?_⟩
+          intro n hn'
+          simp [declName] at hn'
+          exact ⟨cv.varPrefix, s.next, hn', hp.1, Nat.le_refl _, by omega⟩
+        exact freshIn_append _ _ _ _ _ h1 hf (by omega) hn
+theorem emitList_fresh (W : Char → Bool) (env : Env) : ∀ (es : List Expr) (s : St) (ts : List Str) (s' : St),
+    emitList W env es s = .ok (ts, s') → PrefixOkList es = true →
+    ∃ newD, s'.decls = s.decls ++ newD ∧ s.next ≤ s'.next ∧ FreshIn s.next s'.next newD
+  | [], s, ts, s', h, _ => by
+    simp only [emitList, Except.ok.injEq, Prod.mk.injEq] at h
+    obtain ⟨rfl, rfl⟩ := h
+    exact ⟨[], by simp, Nat.le_refl _, freshIn_nil _ _⟩
+  | e :: es, s, ts, s', h, hp => by
+    simp only [PrefixOkList, Bool.and_eq_true] at hp
+    simp only [emitList] at h
+    cases he : emit W env e s with
+    | error x => simp [he] at h
+    | ok r =>
+      obtain ⟨t, s1⟩ := r
+      simp only [he] at h
+      cases hes : emitList W env es s1 with
+      | error x => simp [hes] at h
+      | ok r2 =>
+        obtain ⟨ts2, s2⟩ := r2
+        simp only [hes, Except.ok.injEq, Prod.mk.injEq] at h
+        obtain ⟨rfl, rfl⟩ := h
+        obtain ⟨d1, hd1, hn1, hf1⟩ := emit_fresh W env e s t s1 he hp.1
+        obtain ⟨d2, hd2, hn2, hf2⟩ := emitList_fresh W env es s1 ts2 s2 hes hp.2
+        exact ⟨d1 ++ d2, by simp [hd2, hd1], by omega, freshIn_append _ _ _ _ _ hf1 hf2 hn1 hn2⟩
+end
+
+
+/-! ### what the finder produces is well formed when the table is -/
+
+theorem table_get_wf (W : Char → Bool) (tbl : Table) (h : tableWellFormed W tbl = true) (k : Str) (hd : Handler)
+    (hg : tbl.get? k = some hd) : handlerWF W hd = true := by
+  induction tbl with
+  | nil => simp [Table.get?] at hg
+  | cons a tbl ih =>
+    obtain ⟨k', h'⟩ := a
+    simp only [tableWellFormed, Bool.and_eq_true] at h
+    simp only [Table.get?] at hg
+    by_cases hk : k' = k
+    · simp only [hk, if_true, Option.some.injEq] at hg
+      subst hg
+      exact h.1
+    · simp only [hk, if_false] at hg
+      exact ih h.2 hg
+
+theorem table_get_prefix (tbl : Table) (h : tablePrefixOk tbl = true) (k : Str) (hd : Handler)
+    (hg : tbl.get? k = some hd) : handlerPrefixOk hd = true := by
+  induction tbl with
+  | nil => simp [Table.get?] at hg
+  | cons a tbl ih =>
+    obtain ⟨k', h'⟩ := a
+    simp only [tablePrefixOk, Bool.and_eq_true] at h
+    simp only [Table.get?] at hg
+    by_cases hk : k' = k
+    · simp only [hk, if_true, Option.some.injEq] at hg
+      subst hg
+      exact h.1
+    · simp only [hk, if_false] at hg
+      exact ih h.2 hg
+
+theorem applyHandler_wf (W : Char → Bool) (hd : Handler) (f : Expr) (args : List Expr) (e : Expr)
+    (hw : handlerWF W hd = true)
+    (ha : WFList W args = true) (he : applyHandler hd f args = .ok e) : WF W e = true := by
+  cases hd with
+  | spec s =>
+    have := build_ok_form s f args e (by simpa [applyHandler] using he)
+    subst this
+    simp only [WF, ha, Bool.and_true]
+    simp only [handlerWF, specWellFormed, Bool.and_eq_true] at hw
+    simp only [cvWellFormed, FSpec.toCodeValue, expectedInstance, Bool.and_eq_true]
+    refine ⟨hw.1, ?_⟩
+    cases hs : shape f <;> cases hm : s.methodObject <;> simp_all
+  | nonnull =>
+    simp only [applyHandler] at he
+    by_cases hl : args.length = 1
+    · simp [hl] at he; subst he
+      simp only [handlerWF] at hw
+      simp [WF, ha, hw]
+    · simp [hl] at he
+  | refuse => simp [applyHandler] at he
+
+theorem nonnull_prefix_ok : noDigitEnd nonnullCodeValue.varPrefix = true := by decide
+
+theorem applyHandler_prefix (hd : Handler) (f : Expr) (args : List Expr) (e : Expr)
+    (hw : handlerPrefixOk hd = true)
+    (ha : PrefixOkList args = true) (he : applyHandler hd f args = .ok e) : PrefixOk e = true := by
+  cases hd with
+  | spec s =>
+    have := build_ok_form s f args e (by simpa [applyHandler] using he)
+    subst this
+    simp only [handlerPrefixOk] at hw
+    simp [PrefixOk, ha, FSpec.toCodeValue, hw]
+  | nonnull =>
+    simp only [applyHandler] at he
+    by_cases hl : args.length = 1
+    · simp [hl] at he; subst he; simp [PrefixOk, ha, nonnull_prefix_ok]
+    · simp [hl] at he
+  | refuse => simp [applyHandler] at he
+
+mutual
+theorem finder_wf (W : Char → Bool) (tbl : Table) (ht : tableWellFormed W tbl = true)
+    (hp : tablePrefixOk tbl = true) : ∀ (e e' : Expr),
+    finder tbl e = .ok e' → (WF W e = true → WF W e' = true) ∧ (PrefixOk e = true → PrefixOk e' = true)
+  | .name _, e', h => by simp [finder] at h; subst h; simp
+  | .const _, e', h => by simp [finder] at h; subst h; simp
+  | .opaque _, e', h => by simp [finder] at h; subst h; simp
+  | .attr o a, e', h => by
+    simp only [finder] at h
+    cases ho : finder tbl o with
+    | error x => simp [ho] at h
+    | ok o' =>
+      simp [ho] at h; subst h
+      have ih := finder_wf W tbl ht hp o o' ho
+      simpa [WF, PrefixOk] using ih
+  | .binop op l r, e', h => by
+    simp only [finder] at h
+    cases hl : finder tbl l with
+    | error x => simp [hl] at h
+    | ok l' =>
+      cases hr : finder tbl r with
+      | error x => simp [hl, hr] at h
+      | ok r' =>
+        simp [hl, hr] at h; subst h
+        have i1 := finder_wf W tbl ht hp l l' hl
+        have i2 := finder_wf W tbl ht hp r r' hr
+        simp only [WF, PrefixOk, Bool.and_eq_true]
+        exact ⟨fun hw => ⟨i1.1 hw.1, i2.1 hw.2⟩, fun hw => ⟨i1.2 hw.1, i2.2 hw.2⟩⟩
+  | .cpp cv args, e', h => by
+    simp only [finder] at h
+    cases ha : finderList tbl args with
+    | error x => simp [ha] at h
+    | ok args' =>
+      simp [ha] at h; subst h
+      have ih := finderList_wf W tbl ht hp args args' ha
+      simp only [WF, PrefixOk, Bool.and_eq_true]
+      exact ⟨fun hw => ⟨hw.1, ih.1 hw.2⟩, fun hw => ⟨hw.1, ih.2 hw.2⟩⟩
+  | .call f args, e', h => by
+    simp only [finder] at h
+    cases hf : finder tbl f with
+    | error x => simp [hf] at h
+    | ok f' =>
+      cases ha : finderList tbl args with
+      | error x => simp [hf, ha] at h
+      | ok args' =>
+        simp only [hf, ha] at h
+        have ihf := finder_wf W tbl ht hp f f' hf
+        have iha := finderList_wf W tbl ht hp args args' ha
+        simp only [WF, PrefixOk, Bool.and_eq_true]
+        cases hk : calleeKey f' with
+        | none =>
+          simp [hk] at h; subst h
+          simp only [WF, PrefixOk, Bool.and_eq_true]
+          exact ⟨fun hw => ⟨ihf.1 hw.1, iha.1 hw.2⟩, fun hw => ⟨ihf.2 hw.1, iha.2 hw.2⟩⟩
+        | some k =>
+          simp only [hk] at h
+          cases hg : tbl.get? k with
+          | none =>
+            simp [hg] at h; subst h
+            simp only [WF, PrefixOk, Bool.and_eq_true]
+            exact ⟨fun hw => ⟨ihf.1 hw.1, iha.1 hw.2⟩, fun hw => ⟨ihf.2 hw.1, iha.2 hw.2⟩⟩
+          | some hd =>
+            simp only [hg] at h
+            exact ⟨fun hw => applyHandler_wf W hd f' args' e' (table_get_wf W tbl ht k hd hg) (iha.1 hw.2) h,
+              fun hw => applyHandler_prefix hd f' args' e' (table_get_prefix tbl hp k hd hg) (iha.2 hw.2) h⟩
+theorem finderList_wf (W : Char → Bool) (tbl : Table) (ht : tableWellFormed W tbl = true)
+    (hp : tablePrefixOk tbl = true) : ∀ (es es' : List Expr),
+    finderList tbl es = .ok es' →
+      (WFList W es = true → WFList W es' = true) ∧ (PrefixOkList es = true → PrefixOkList es' = true)
+  | [], es', h => by simp [finderList] at h; subst h; simp
+  | e :: es, es', h => by
+    simp only [finderList] at h
+    cases he : finder tbl e with
+    | error x => simp [he] at h
+    | ok e1 =>
+      cases hs : finderList tbl es with
+      | error x => simp [he, hs] at h
+      | ok es1 =>
+        simp [he, hs] at h; subst h
+        have i1 := finder_wf W tbl ht hp e e1 he
+        have i2 := finderList_wf W tbl ht hp es es1 hs
+        simp only [WFList, PrefixOkList, Bool.and_eq_true]
+        exact ⟨fun hw => ⟨i1.1 hw.1, i2.1 hw.2⟩, fun hw => ⟨i1.2 hw.1, i2.2 hw.2⟩⟩
+end
+
+
+theorem flatMap_congr' {α β} (l : List α) (f g : α → List β) (h : ∀ a ∈ l, f a = g a) :
+    l.flatMap f = l.flatMap g := by
+  induction l with
+  | nil => rfl
+  | cons a l ih =>
+    simp only [List.flatMap_cons]
+    rw [h a (by simp), ih (fun b hb => h b (by simp [hb]))]
+
+mutual
+/-- emission only appends to the enclosing block and only adds include files (no hypothesis) -/
+theorem emit_grows (W : Char → Bool) (env : Env) : ∀ (e : Expr) (s : St) (t : Str) (s' : St),
+    emit W env e s = .ok (t, s') →
+    ∃ nd nb, s'.decls = s.decls ++ nd ∧ s'.stmts = s.stmts ++ nb ∧ (∀ i ∈ s.includes, i ∈ s'.includes)
+  | .opaque x, s, t, s', h => by
+    simp only [emit, Except.ok.injEq, Prod.mk.injEq] at h
+    obtain ⟨rfl, rfl⟩ := h
+    exact ⟨[], [], by simp, by simp, fun i hi => hi⟩
+  | .const x, s, t, s', h => by
+    simp only [emit, Except.ok.injEq, Prod.mk.injEq] at h
+    obtain ⟨rfl, rfl⟩ := h
+    exact ⟨[], [], by simp, by simp, fun i hi => hi⟩
+  | .name id, s, t, s', h => by
+    simp only [emit] at h
+    cases hg : env.get? id with
+    | none => simp [hg] at h
+    | some v =>
+      simp only [hg, Except.ok.injEq, Prod.mk.injEq] at h
+      obtain ⟨rfl, rfl⟩ := h
+      exact ⟨[], [], by simp, by simp, fun i hi => hi⟩
+  | .attr _ _, s, t, s', h => by simp [emit] at h
+  | .call _ _, s, t, s', h => by simp [emit] at h
+  | .binop _ _ _, s, t, s', h => by simp [emit] at h
+  | .cpp cv args, s, t, s', h => by
+    simp only [emit] at h
+    cases hr : recvOf env cv with
+    | none => simp [hr] at h
+    | some recv =>
+      simp only [hr] at h
+      cases hl : emitList W env args
+          { s with next := s.next + 1,
+                   decls := s.decls ++ [.decl (declType cv) (uniqueName cv.varPrefix s.next)],
+                   includes := addIncludes s.includes cv.includes } with
+      | error x => simp [hl] at h
+      | ok r =>
+        obtain ⟨texts, s2⟩ := r
+        simp only [hl, Except.ok.injEq, Prod.mk.injEq] at h
+        obtain ⟨rfl, rfl⟩ := h
+        obtain ⟨nd, nb, hd, hb, _, hi⟩ := emitList_grows W env args _ texts s2 hl
+        exact ⟨.decl (declType cv) (uniqueName cv.varPrefix s.next) :: nd,
+          nb ++ [.block (blockLines W cv (replList cv recv texts)) (uniqueName cv.varPrefix s.next) cv.result],
+          by simp [hd], by simp [hb],
+          fun i his => hi i ((addIncludes_sub s.includes cv.includes).1 i his)⟩
+theorem emitList_grows (W : Char → Bool) (env : Env) : ∀ (es : List Expr) (s : St) (ts : List Str) (s' : St),
+    emitList W env es s = .ok (ts, s') →
+    ∃ nd nb, s'.decls = s.decls ++ nd ∧ s'.stmts = s.stmts ++ nb ∧ ts.length = es.length ∧
+      (∀ i ∈ s.includes, i ∈ s'.includes)
+  | [], s, ts, s', h => by
+    simp only [emitList, Except.ok.injEq, Prod.mk.injEq] at h
+    obtain ⟨rfl, rfl⟩ := h
+    exact ⟨[], [], by simp, by simp, rfl, fun i hi => hi⟩
+  | e :: es, s, ts, s', h => by
+    simp only [emitList] at h
+    cases he : emit W env e s with
+    | error x => simp [he] at h
+    | ok r =>
+      obtain ⟨t, s1⟩ := r
+      simp only [he] at h
+      cases hes : emitList W env es s1 with
+      | error x => simp [hes] at h
+      | ok r2 =>
+        obtain ⟨ts2, s2⟩ := r2
+        simp only [hes, Except.ok.injEq, Prod.mk.injEq] at h
+        obtain ⟨rfl, rfl⟩ := h
+        obtain ⟨d1, b1, hd1, hb1, hi1⟩ := emit_grows W env e s t s1 he
+        obtain ⟨d2, b2, hd2, hb2, hl2, hi2⟩ := emitList_grows W env es s1 ts2 s2 hes
+        exact ⟨d1 ++ d2, b1 ++ b2, by simp [hd2, hd1], by simp [hb2, hb1], by simp [hl2],
+          fun i hi => hi2 i (hi1 i hi)⟩
+end
+
+theorem lookup_append_skip (xs b : List Binding) (s d w : Str) (h : s ≠ w) :
+    lookup (xs ++ (s, d) :: b) w = lookup (xs ++ b) w := by
+  induction xs with
+  | nil => simp [lookup, h]
+  | cons x xs ih =>
+    obtain ⟨s', d'⟩ := x
+    simp only [List.cons_append, lookup, ih]
+
+/-- a later binding of a name already bound is never looked at -/
+theorem lookup_append_dup (a b : List Binding) (s d w : Str) (hs : s ∈ keys a) :
+    lookup (a ++ (s, d) :: b) w = lookup (a ++ b) w := by
+  induction a with
+  | nil => simp [keys] at hs
+  | cons x xs ih =>
+    obtain ⟨s', d'⟩ := x
+    simp only [List.cons_append, lookup]
+    by_cases hx : s' = w
+    · simp [hx]
+    · simp only [hx, if_false]
+      by_cases hs' : s ∈ keys xs
+      · exact ih hs'
+      · have : s = s' := by
+          simp only [keys, List.map_cons, List.mem_cons] at hs
+          rcases hs with hs | hs
+          · exact hs
+          · exact absurd hs hs'
+        subst this
+        exact lookup_append_skip xs b s d w hx
 end FaxVerif.C11
